@@ -170,13 +170,22 @@ def check(fx, rep, tier):
                 cadence = (allargs[via_helper[0]], allargs[via_helper[1]])
         call_is_conjunct = any(F.strip(c) is n or any(x is n for x, _ in F.walk(c)) and F.strip(c).get("k") == "MethodCall" for c in conj)
         others = [c for c in conj if rem_eq_zero(c) is None and not any(x is n for x, _ in F.walk(c))]
-        ok_shape = cadence is not None and call_is_conjunct and not others
+        # the cadence test comes first: `&&` short-circuits, so with the operands the other way round the watchdog is asked
+        # on every iteration (and a stop it signals is ignored unless the counter happens to be aligned)
+        order_ok = True
+        if via_helper is None and cadence is not None:
+            idx_c = next((i for i, c in enumerate(conj) if rem_eq_zero(c)), None)
+            idx_p = next((i for i, c in enumerate(conj) if any(x is n for x, _ in F.walk(c))), None)
+            own = split_and(iff["cond"])
+            if idx_c is not None and idx_p is not None and any(rem_eq_zero(c) for c in own) and any(any(x is n for x, _ in F.walk(c)) for c in own):
+                order_ok = idx_c < idx_p
+        ok_shape = cadence is not None and call_is_conjunct and not others and order_ok
         rep.oblige(
             ok_shape,
             "R13.1",
             f"poll-shape:{key_base}",
             w,
-            "the poll is not of the form `counter % interval == 0 && should_stop()`" + (f" (extra conditions: {len(others)})" if others else ""),
+            "the poll is not of the form `counter % interval == 0 && should_stop()`" + (f" (extra conditions: {len(others)})" if others else "") + ("" if order_ok else " (the watchdog is asked before the cadence test: it is polled on every iteration)"),
             sample={"rule": "R13.1", "fn": b["def"], "at": w, "shape": "counter % interval == 0 && should_stop()" if ok_shape else "other"},
         )
         # the poll is reached on every iteration: it is not nested under another condition and no `continue` can skip it
